@@ -101,23 +101,24 @@ from vgi_rpc.utils import IpcValidation, ValidatedReader, new_ipc_stream
 # ---------------------------------------------------------------------------
 
 
-_ACCESS_LOG_ERROR_MESSAGE_LIMIT = 500
-"""Cap for ``error_message`` fields surfaced via the access log.
+_ACCESS_LOG_ERROR_MESSAGE_LIMIT: int | None = None
+"""Cap for ``error_message`` fields surfaced via the access log (``None`` = no cap).
 
-Long exception messages (typically with embedded tracebacks or repeated
-context) bloat each JSONL record without adding signal — the full traceback
-is logged separately by ``_log_method_error``.  The cap matches the
-historical inline truncation used at every dispatch site.
+The access-log specification requires the full server-side message
+("No length cap", "``error_message`` MUST NOT be truncated"), and the socket
+dispatch paths have always reported ``str(exc)`` in full; the HTTP shells
+used to cut at 500 characters.  The knob stays so a deployment that must
+bound record size can still set one.
 """
 
 
-def _truncate_error_message(exc: BaseException | None, limit: int = _ACCESS_LOG_ERROR_MESSAGE_LIMIT) -> str:
+def _truncate_error_message(exc: BaseException | None, limit: int | None = _ACCESS_LOG_ERROR_MESSAGE_LIMIT) -> str:
     """Render an exception's message for the access-log ``error_message`` field.
 
     Returns ``""`` for ``None`` (the no-error case).  Otherwise returns
-    ``str(exc)`` truncated to ``limit`` characters.  Centralises the
-    historically duplicated ``str(exc)[:500]`` pattern across the unary
-    and stream dispatch shells so the truncation policy is one knob.
+    ``str(exc)``, cut to ``limit`` characters only when a limit is set.
+    Centralises the rendering across the unary and stream dispatch shells
+    so the policy is one knob.
     """
     if exc is None:
         return ""
